@@ -193,14 +193,14 @@ fn tiny_model() -> Model {
     m.walls[1].bounds = BoundaryType::INTERIOR;
     m.walls[1].next_to = Some(uid("S2"));
     m.windows[0].geometry.setback = 0.2;
-    m.shades.push(Shade { id: uid("sh"), name: "sh".into(), geometry: geom(90.0, 0.0, Some([0.0, -5.0, 0.0]), rect(10.0, 6.0)) });
-    m.thermal_bridges.push(ThermalBridge { id: uid("tb"), name: "tb".into(), kind: ThermalBridgeKind::CORNER, l: 12.0, psi: 0.1 });
-    m.schedules.day.push(ScheduleDay { id: uid("d1"), name: "d1".into(), values: (0..24).map(|h| if h >= 8 && h < 18 { 1.0 } else { 0.0 }).collect() });
-    m.schedules.day.push(ScheduleDay { id: uid("d2"), name: "d2".into(), values: vec![0.0; 24] });
-    m.schedules.week.push(ScheduleWeek { id: uid("w1"), name: "w1".into(), values: vec![(uid("d1"), 5), (uid("d2"), 2)] });
-    m.schedules.year.push(Schedule { id: uid("y1"), name: "y1".into(), values: vec![(uid("w1"), 365)] });
-    m.loads.push(SpaceLoads { id: uid("l1"), name: "l1".into(), area_per_person: 10.0, people_schedule: Some(uid("y1")), people_sensible: 7.0, people_latent: 4.0, equipment: 4.4, equipment_schedule: Some(uid("y1")), lighting: 4.4, lighting_schedule: Some(uid("y1")) });
-    m.thermostats.push(Thermostat { id: uid("t1"), name: "t1".into(), temp_max: Some(uid("y1")), temp_min: Some(uid("y1")) });
+    m.shades.push(Shade { id: uid("sh"), name: "sh".into(), geometry: geom(90.0, 0.0, Some([0.0, -5.0, 0.0]), rect(10.0, 6.0)), ..Default::default() });
+    m.thermal_bridges.push(ThermalBridge { id: uid("tb"), name: "tb".into(), kind: ThermalBridgeKind::CORNER, l: 12.0, psi: 0.1, ..Default::default() });
+    m.schedules.day.push(ScheduleDay { id: uid("d1"), name: "d1".into(), values: (0..24).map(|h| if h >= 8 && h < 18 { 1.0 } else { 0.0 }).collect(), ..Default::default() });
+    m.schedules.day.push(ScheduleDay { id: uid("d2"), name: "d2".into(), values: vec![0.0; 24], ..Default::default() });
+    m.schedules.week.push(ScheduleWeek { id: uid("w1"), name: "w1".into(), values: vec![(uid("d1"), 5), (uid("d2"), 2)], ..Default::default() });
+    m.schedules.year.push(Schedule { id: uid("y1"), name: "y1".into(), values: vec![(uid("w1"), 365)], ..Default::default() });
+    m.loads.push(SpaceLoads { id: uid("l1"), name: "l1".into(), area_per_person: 10.0, people_schedule: Some(uid("y1")), people_sensible: 7.0, people_latent: 4.0, equipment: 4.4, equipment_schedule: Some(uid("y1")), lighting: 4.4, lighting_schedule: Some(uid("y1")), ..Default::default() });
+    m.thermostats.push(Thermostat { id: uid("t1"), name: "t1".into(), temp_max: Some(uid("y1")), temp_min: Some(uid("y1")), ..Default::default() });
     m.spaces[0].loads = Some(uid("l1"));
     m.spaces[0].thermostat = Some(uid("t1"));
     m.spaces[0].illuminance = Some(300.0);
@@ -210,16 +210,16 @@ fn tiny_model() -> Model {
     m.spaces.push(s3);
     m.walls.push(wall("S3_F", BoundaryType::GROUND, uid("wc"), uid("S3"), None, geom(180.0, 0.0, Some([0.0, 20.0, 0.0]), rect(4.0, 4.0))));
     m.walls.push(wall("S3_S", BoundaryType::EXTERIOR, uid("wc"), uid("S3"), None, geom(90.0, 0.0, Some([0.0, 16.0, 0.0]), rect(4.0, 3.0))));
-    m.schedules.day.push(ScheduleDay { id: uid("d3"), name: "d3".into(), values: (0..24).map(|h| if h >= 20 { 0.5 } else { 0.0 }).collect() });
-    m.schedules.week.push(ScheduleWeek { id: uid("w2"), name: "w2".into(), values: vec![(uid("d3"), 7)] });
-    m.schedules.year.push(Schedule { id: uid("y2"), name: "y2".into(), values: vec![(uid("w2"), 200), (uid("w1"), 165)] });
-    m.loads.push(SpaceLoads { id: uid("l2"), name: "l2".into(), area_per_person: 20.0, people_schedule: Some(uid("y2")), people_sensible: 7.0, people_latent: 4.0, equipment: 2.0, equipment_schedule: None, lighting: 3.0, lighting_schedule: Some(uid("y2")) });
-    m.overrides.windows.insert(uid("W1"), WinPropsOverrides { u_value: Some(1.5), f_shobst: None });
+    m.schedules.day.push(ScheduleDay { id: uid("d3"), name: "d3".into(), values: (0..24).map(|h| if h >= 20 { 0.5 } else { 0.0 }).collect(), ..Default::default() });
+    m.schedules.week.push(ScheduleWeek { id: uid("w2"), name: "w2".into(), values: vec![(uid("d3"), 7)], ..Default::default() });
+    m.schedules.year.push(Schedule { id: uid("y2"), name: "y2".into(), values: vec![(uid("w2"), 200), (uid("w1"), 165)], ..Default::default() });
+    m.loads.push(SpaceLoads { id: uid("l2"), name: "l2".into(), area_per_person: 20.0, people_schedule: Some(uid("y2")), people_sensible: 7.0, people_latent: 4.0, equipment: 2.0, equipment_schedule: None, lighting: 3.0, lighting_schedule: Some(uid("y2")), ..Default::default() });
+    m.overrides.windows.insert(uid("W1"), WinPropsOverrides { u_value: Some(1.5), f_shobst: None, ..Default::default() });
     m
 }
 
 fn micro_model() -> Model {
-    let mut m = Model { meta: meta(zone("B3")), ..Default::default() };
+    let mut m = model_with_meta(meta(zone("B3")));
     m.spaces.push(space("S1", SpaceType::CONDITIONED, true, 3.0));
     m.cons.materials.push(mat_detailed("ins", 0.04));
     m.cons.wallcons.push(wallcons("wc", &[(uid("ins"), 0.1)]));
@@ -377,10 +377,28 @@ pub fn n_histories(maxlen: u32) -> u64 {
 /// wall construction, glazing, frame, window construction) instead of from the empty model
 pub const KIT_BASE: u64 = 1 << 40;
 
+/// indices from DENSE_BASE on: a box with one window behind a brise-soleil of n identical slats whose centres coincide
+/// on their longest axis at a value that is not a binary fraction (n around and above the leaf size of the ray-casting tree)
+pub const DENSE_BASE: u64 = 1 << 41;
+pub const DENSE_N: [usize; 4] = [29, 31, 40, 60];
+pub const DENSE_CENTRES: [f32; 6] = [4.05, 0.1, 0.7, 1.0e-3, 123456.7, -2.3];
+
+pub fn dense_model(k: u64) -> Model {
+    let (n, cx) = (DENSE_N[(k as usize) % DENSE_N.len()], DENSE_CENTRES[(k as usize / DENSE_N.len()) % DENSE_CENTRES.len()]);
+    let mut m = simple_box(zone("D3"));
+    for i in 0..n {
+        m.shades.push(Shade { id: uid(&format!("slat{i}")), name: format!("slat{i}"), geometry: geom(0.0, 0.0, Some([cx - 1.5, -1.0, 0.9 + i as f32 * 0.03]), rect(3.0, 0.15)), ..Default::default() });
+    }
+    m
+}
+
 pub fn history_model(idx: u64) -> (Model, Vec<usize>) {
+    if idx >= DENSE_BASE {
+        return (dense_model(idx - DENSE_BASE), vec![]);
+    }
     let kit = idx >= KIT_BASE;
     let ops = decode_history(if kit { idx - KIT_BASE } else { idx });
-    let mut m = Model { meta: meta(zone("D3")), ..Default::default() };
+    let mut m = model_with_meta(meta(zone("D3")));
     if kit {
         std_cons(&mut m);
         std_wincons(&mut m);
@@ -413,13 +431,13 @@ pub fn history_model(idx: u64) -> (Model, Vec<usize>) {
                 m.cons.glasses.push(glass(&format!("g{n}"), 2.8, 0.7));
                 m.cons.frames.push(frame(&format!("f{n}"), 3.2));
             }
-            9 => m.thermal_bridges.push(ThermalBridge { id: uid(&format!("tb{n}")), name: n.clone(), kind: ThermalBridgeKind::CORNER, l: 1.0, psi: 0.1 }),
-            10 => m.shades.push(Shade { id: uid(&format!("sh{n}")), name: n.clone(), geometry: geom(90.0, 0.0, Some([0.0, -3.0, 0.0]), rect(4.0, 4.0)) }),
+            9 => m.thermal_bridges.push(ThermalBridge { id: uid(&format!("tb{n}")), name: n.clone(), kind: ThermalBridgeKind::CORNER, l: 1.0, psi: 0.1, ..Default::default() }),
+            10 => m.shades.push(Shade { id: uid(&format!("sh{n}")), name: n.clone(), geometry: geom(90.0, 0.0, Some([0.0, -3.0, 0.0]), rect(4.0, 4.0)), ..Default::default() }),
             11 => {
-                m.schedules.day.push(ScheduleDay { id: uid(&format!("d{n}")), name: n.clone(), values: vec![1.0; 24] });
-                m.schedules.week.push(ScheduleWeek { id: uid(&format!("wk{n}")), name: n.clone(), values: vec![(uid(&format!("d{n}")), 7)] });
-                m.schedules.year.push(Schedule { id: uid(&format!("y{n}")), name: n.clone(), values: vec![(uid(&format!("wk{n}")), 365)] });
-                m.loads.push(SpaceLoads { id: uid(&format!("l{n}")), name: n.clone(), area_per_person: 10.0, people_schedule: Some(uid(&format!("y{n}"))), people_sensible: 7.0, people_latent: 4.0, equipment: 4.0, equipment_schedule: Some(uid(&format!("y{n}"))), lighting: 4.0, lighting_schedule: None });
+                m.schedules.day.push(ScheduleDay { id: uid(&format!("d{n}")), name: n.clone(), values: vec![1.0; 24], ..Default::default() });
+                m.schedules.week.push(ScheduleWeek { id: uid(&format!("wk{n}")), name: n.clone(), values: vec![(uid(&format!("d{n}")), 7)], ..Default::default() });
+                m.schedules.year.push(Schedule { id: uid(&format!("y{n}")), name: n.clone(), values: vec![(uid(&format!("wk{n}")), 365)], ..Default::default() });
+                m.loads.push(SpaceLoads { id: uid(&format!("l{n}")), name: n.clone(), area_per_person: 10.0, people_schedule: Some(uid(&format!("y{n}"))), people_sensible: 7.0, people_latent: 4.0, equipment: 4.0, equipment_schedule: Some(uid(&format!("y{n}"))), lighting: 4.0, lighting_schedule: None, ..Default::default() });
                 if let Some(s) = m.spaces.last_mut() {
                     s.loads = Some(uid(&format!("l{n}")));
                 }
@@ -550,13 +568,15 @@ pub fn run(ctx: &Ctx) -> i32 {
     let mut idxs: Vec<u64> = (0..nh).collect();
     let nh_kit = n_histories(maxlen - 1);
     idxs.extend((0..nh_kit).map(|i| KIT_BASE + i));
+    let n_dense = (DENSE_N.len() * DENSE_CENTRES.len()) as u64;
+    idxs.extend((0..n_dense).map(|i| DENSE_BASE + i));
     let states = Mutex::new(HashSet::<u64>::new());
     sup::supervise(&format!("c14c-{}", ctx.tier.name()), &idxs, timeout, &|idx, v| {
-        let ops = decode_history(if idx >= KIT_BASE { idx - KIT_BASE } else { idx });
+        let ops = if idx >= DENSE_BASE { vec![] } else { decode_history(if idx >= KIT_BASE { idx - KIT_BASE } else { idx }) };
         if let Some(s) = v["sig"].as_u64() {
             states.lock().unwrap().insert(s);
         }
-        handle(ctx, &tally, &|| json!({"part": "editor-history", "ops": ops, "from_library_state": idx >= KIT_BASE, "index": idx, "model": serde_json::to_value(history_model(idx).0).unwrap()}), &format!("history{:?}", ops), &v)
+        handle(ctx, &tally, &|| json!({"part": "editor-history", "ops": ops, "from_library_state": idx >= KIT_BASE && idx < DENSE_BASE, "dense_brise_soleil_model": idx >= DENSE_BASE, "index": idx, "model": serde_json::to_value(history_model(idx).0).unwrap()}), &format!("history{:?}", ops), &v)
     });
     ctx.note("editor_histories", json!({"max_len": maxlen, "histories": nh, "histories_from_library_state": nh_kit, "ops": NOPS, "distinct_result_signatures": states.lock().unwrap().len()}));
     ctx.sample(json!({"part": "editor-history", "ops": decode_history(nh / 2)}));
@@ -566,7 +586,7 @@ pub fn run(ctx: &Ctx) -> i32 {
     ctx.outcome(&"noload");
     ctx.finish(
         "fault_enumeration",
-        &format!("(a) every single JSON-tree edit {{delete key, delete array item, empty/duplicate-last/truncate array, id -> nil / next other id of the document / fresh id, number -> 0, number -> -number, number -> -1e-6}} of the bases (quick: generated tiny + micro models and cubo.json; thorough: + the other 6 shipped models); (b) every ordered pair of such edits on the micro model (thorough: also on the tiny model); (c) every editor history of length <= {} from the empty model, and of one step less from a model that already holds a small library of constructions, over {} operations (add space / wall / dangling wall / ground floor / window / wallcons / material / wincons / glass+frame / bridge / shade / loads+schedules / n50+ventilation / interior wall); each resulting document that loads as a Model is run through energy_indicators() in a supervised worker process (20 s watchdog, 4 GiB, panic-site capture, post-panic sentinel on cubo.json); closed models with positive sizes must report only finite numbers and JSON that loads back; non-trivial = document loads as a model", maxlen, NOPS),
+        &format!("(a) every single JSON-tree edit {{delete key, delete array item, empty/duplicate-last/truncate array, id -> nil / next other id of the document / fresh id, number -> 0, number -> -number, number -> -1e-6}} of the bases (quick: generated tiny + micro models and cubo.json; thorough: + the other 6 shipped models); (b) every ordered pair of such edits on the micro model (thorough: also on the tiny model); (c) 24 box models behind a brise-soleil of 29/31/40/60 identical slats whose centres coincide at 4.05, 0.1, 0.7, 1e-3, 123456.7, -2.3; every editor history of length <= {} from the empty model, and of one step less from a model that already holds a small library of constructions, over {} operations (add space / wall / dangling wall / ground floor / window / wallcons / material / wincons / glass+frame / bridge / shade / loads+schedules / n50+ventilation / interior wall); each resulting document that loads as a Model is run through energy_indicators() in a supervised worker process (20 s watchdog, 4 GiB, panic-site capture, post-panic sentinel on cubo.json); closed models with positive sizes must report only finite numbers and JSON that loads back; non-trivial = document loads as a model", maxlen, NOPS),
         true,
         json!({}),
     )
